@@ -559,6 +559,306 @@ def unit_elem_pow(meth, field):
                 bounded_in='integer exponent p in [%d, %d]' % (POW_RANGE[0], POW_RANGE[-1]))
 
 
+
+# --------------------------------------------------------------------------
+# ProductSpace: component-wise delegation and power-space broadcasting.
+#
+# The product space, its elements and everything between the public entry point and the component
+# kernels is the REAL code (ProductSpace._lincomb/_multiply/_divide/zero/one/element/__getitem__/__len__/__eq__,
+# ProductSpaceElement.__init__/parts/__getitem__/__len__, the closure returned by `_broadcast_arithmetic`,
+# LinearSpaceElement.<dunder>, LinearSpace.lincomb/multiply/divide/__contains__).  The COMPONENT spaces are arbitrary
+# LinearSpaces known only through the contracts proved above (abstract kernel contract, public space contract,
+# element-dunder table) - which are exactly the statements proved here for the product space, so arbitrarily nested
+# product spaces follow by structural induction over the nesting depth.
+
+PSP = 'odl.space.pspace:'
+
+
+def _is_leaf(o, base):
+    return isinstance(o, ip.Obj) and o.cls is base
+
+
+def pspace_world(I, st, k, power, field):
+    """a product of k arbitrary component spaces (all equal for a power space), leaf contracts installed as
+    cuts that step aside for product-space objects (those run the real code)"""
+    if power:
+        a0 = lib.AbstractSpace(I, 'X', field)
+        asps = [a0] * k
+    else:
+        asps = [lib.AbstractSpace(I, 'X%d' % i, field) for i in range(k)]
+    by_space = {id(a.space): a for a in asps}
+    alien = lib.AbstractSpace(I, 'Y', field)
+    by_space[id(alien.space)] = alien
+
+    def make_elem(fr, space, cont):
+        return by_space[id(space)].element(cont=cont)
+    lcls = I.get_class(SPACE + 'LinearSpace')
+    ecls = I.get_class(SPACE + 'LinearSpaceElement')
+    cuts = {}
+    leafcuts = {}
+    leafcuts.update(lib.abstract_space_cuts(asps[0]))       # _lincomb / _multiply / _divide (space-independent)
+    leafcuts.update(lib.space_api_cuts(make_elem))
+    leafcuts.update(lib.elem_api_cuts(make_elem))
+    for q, cut in leafcuts.items():
+        if q.startswith(SPACE + 'LinearSpace.') or q.startswith(SPACE + 'LinearSpaceElement.'):
+            base = ecls if 'LinearSpaceElement.' in q else lcls
+            try:
+                real = I.get_func(q)
+            except Exception:
+                real = None
+
+            def guarded(I_, fr, self, *a, _cut=cut, _real=real, _base=base, _q=q, **kw):
+                if _is_leaf(self, _base) or _real is None:
+                    return _cut(I_, fr, self, *a, **kw)
+                return I_.call_func(_real, [self] + list(a), kw, fr)
+            cuts[q] = guarded
+        else:
+            cuts[q] = cut
+    st.cuts.update(cuts)
+    ps = ip.Obj(I.get_class(PSP + 'ProductSpace'))
+    ps.fields['_ProductSpace__spaces'] = tuple(a.space for a in asps)
+    ps.fields['_ProductSpace__is_power_space'] = bool(power)
+    ps.fields['_LinearSpace__field'] = om.field_obj(I, field)
+    ps.partial = True
+
+    class W(object):
+        pass
+    w = W()
+    w.asps, w.alien, w.space, w.k = asps, alien, ps, k
+    pecls = I.get_class(PSP + 'ProductSpaceElement')
+
+    def pelem(name):
+        x = ip.Obj(pecls)
+        x.fields['_LinearSpaceElement__space'] = ps
+        x.fields['_ProductSpaceElement__parts'] = tuple(asps[i].element('%s%d' % (name, i)) for i in range(k))
+        x.ename = name
+        return x
+    w.pelem = pelem
+    return w
+
+
+def pparts(x):
+    return x.fields['_ProductSpaceElement__parts']
+
+
+def unit_pspace_kernel(meth, k, power, field):
+    """ProductSpace._lincomb / _multiply / _divide: part i of `out` becomes a*x1_i + b*x2_i (x1_i * x2_i, x1_i / x2_i) for EVERY i, for the 5 identity
+    patterns of (x1, x2, out); parts of operands that are not the output are unchanged; parts keep their identity."""
+    def run(ctx):
+        I = ctx.I
+        f = I.get_func(PSP + 'ProductSpace.' + meth)
+        for pat in lib.ALIAS3:
+            def path(st, pat=pat):
+                w = pspace_world(I, st, k, power, field)
+                els = {l: w.pelem(l) for l in sorted(set(pat))}
+                x1, x2, out = (els[l] for l in pat)
+                old = {l: [content(p) for p in pparts(els[l])] for l in els}
+                objs = {l: list(pparts(els[l])) for l in els}
+                fr = ip.Frame(st)
+                a = om.sym_scalar('a', field)
+                b = om.sym_scalar('b', field)
+                try:
+                    if meth == '_lincomb':
+                        I.call(f, [w.space, a, x1, b, x2, out], {}, fr)
+                    else:
+                        I.call(f, [w.space, x1, x2, out], {}, fr)
+                except ip.PyRaise as e:
+                    return ('raise', e.exc)
+                return ('ok', (a, b, els, old, objs))
+            info = {'method': meth, 'alias': list(pat), 'components': k, 'power_space': power, 'field': field}
+            rp = {'kind': 'pspace_kernel', 'method': meth, 'alias': list(pat), 'components': k, 'power': power, 'field': field}
+            for st, (status, r) in ctx.explore(path):
+                if status == 'raise':
+                    ctx.fail(st, 'no_raise', 'raises %s' % lib.exc_desc(r), info, replay=rp)
+                    continue
+                a, b, els, old, objs = r
+                low = st.lower
+                for i in range(k):
+                    o1, o2 = old[pat[0]][i], old[pat[1]][i]
+                    spec = VLin([(a, o1), (b, o2)]) if meth == '_lincomb' else (core.vmul(o1, o2) if meth == '_multiply' else core.vdiv(o1, o2))
+                    ctx.prove(st, 'post:part %d of out == entry-wise result of parts %d' % (i, i), lib.eq_goal(low, content(pparts(els[pat[2]])[i]), spec), info, replay=rp)
+                for l in sorted(els):
+                    ctx.prove(st, 'frame:%s keeps its part objects' % l, len(pparts(els[l])) == k and all(p is q for p, q in zip(pparts(els[l]), objs[l])), info, replay=rp)
+                    if l != pat[2]:
+                        for i in range(k):
+                            ctx.prove(st, 'frame:part %d of %s unchanged' % (i, l), lib.eq_goal(low, content(pparts(els[l])[i]), old[l][i]), info, replay=rp)
+    return Unit('pspace/%s/k=%d/%s/%s' % (meth, k, 'power' if power else 'mixed', field), run, funcs=[PSP + 'ProductSpace.' + meth],
+                config={'method': meth, 'components': k, 'power_space': power, 'field': field})
+
+
+def unit_pspace_nullary(meth, k, power, field):
+    """ProductSpace.zero / one: an element of the very space with k parts, part i a fresh element of factor i holding 0 / 1"""
+    def run(ctx):
+        I = ctx.I
+        f = I.get_func(PSP + 'ProductSpace.' + meth)
+
+        def path(st):
+            w = pspace_world(I, st, k, power, field)
+            fr = ip.Frame(st)
+            try:
+                ret = I.call(f, [w.space], {}, fr)
+            except ip.PyRaise as e:
+                return ('raise', e.exc)
+            return ('ok', (w, ret))
+        info = {'method': meth, 'components': k, 'power_space': power, 'field': field}
+        rp = {'kind': 'pspace_nullary', 'method': meth, 'components': k, 'power': power, 'field': field}
+        for st, (status, r) in ctx.explore(path):
+            if status == 'raise':
+                ctx.fail(st, 'no_raise', 'raises %s' % lib.exc_desc(r), info, replay=rp)
+                continue
+            w, ret = r
+            low = st.lower
+            ok = isinstance(ret, ip.Obj) and ret.fields.get('_LinearSpaceElement__space') is w.space and len(ret.fields.get('_ProductSpaceElement__parts', ())) == k
+            ctx.prove(st, 'post:an element of the very space with one part per factor', ok, info, replay=rp)
+            if not ok:
+                continue
+            for i, p in enumerate(pparts(ret)):
+                ctx.prove(st, 'post:part %d belongs to factor %d' % (i, i), isinstance(p, ip.Obj) and p.fields.get('_LinearSpaceElement__space') is w.asps[i].space, info, replay=rp)
+                ctx.prove(st, 'post:part %d == %s' % (i, meth), lib.eq_goal(low, content(p), VConst(0.0 if meth == 'zero' else 1.0)), info, replay=rp)
+            ctx.prove(st, 'post:parts are pairwise distinct objects', len({id(p) for p in pparts(ret)}) == k, info, replay=rp)
+    return Unit('pspace/%s/k=%d/%s/%s' % (meth, k, 'power' if power else 'mixed', field), run,
+                funcs=[PSP + 'ProductSpace.' + meth, PSP + 'ProductSpace.element', PSP + 'ProductSpaceElement.__init__'],
+                config={'method': meth, 'components': k, 'power_space': power, 'field': field})
+
+
+def broadcast_bindings(I):
+    """the module-level loop of odl.space.pspace that installs the broadcasting dunders on ProductSpaceElement, executed from source:
+    {dunder name: op string handed to _broadcast_arithmetic}"""
+    import ast
+    mod = I.repo.module('odl.space.pspace')
+    loops = [n for n in mod.tree.body if isinstance(n, ast.For) and 'setattr' in ast.dump(n) and '_broadcast_arithmetic' in ast.dump(n)]
+    if len(loops) != 1:
+        raise Unsupported('expected exactly one module-level loop installing _broadcast_arithmetic, found %d' % len(loops))
+    bound = {}
+    st = ip.State()
+    fr = ip.Frame(st, None, None, mod)
+    env = ip.Env(I.modenv('odl.space.pspace'))
+    pecls = I.get_class(PSP + 'ProductSpaceElement')
+
+    def rec_setattr(I_, fr_, a, kw):
+        tgt, name, val = a
+        if tgt is not pecls:
+            raise Unsupported('setattr on %r' % (tgt,))
+        bound[name] = val
+        return None
+    env.vars['setattr'] = ip.Builtin('setattr', rec_setattr)
+    env.vars['_broadcast_arithmetic'] = ip.Builtin('_broadcast_arithmetic', lambda I_, fr_, a, kw: ('op', a[0]))
+    I.exec_stmt(loops[0], env, fr)
+    return {n: v[1] for n, v in bound.items()}, None
+
+
+PS_OTHERS = ['self', 'pelem', 'leaf', 'leaf-part', 'scalar', 'alien', 'badscalar', 'str']
+
+
+def unit_pspace_dunder(dunder, k, power, field):
+    """the arithmetic dunders of ProductSpaceElement as installed by the module-level loop (closure of `_broadcast_arithmetic`), executed down to the
+    component contracts: other = element of the product space (also self), element of the single factor of a power space (broadcast: part_i op other for
+    every i), scalar of the field (scalar broadcasting), foreign element / scalar / object (NotImplemented resp. TypeError, nothing written)."""
+    inplace, espec, sspec = BIN_TABLE[dunder]
+
+    def run(ctx):
+        I = ctx.I
+        bind, _ = broadcast_bindings(I)
+        st0 = ip.State()
+        if dunder not in bind:
+            ctx.fail(st0, 'binding:ProductSpaceElement.%s is installed by the module-level loop' % dunder, 'installed: %s' % sorted(bind), {'dunder': dunder})
+            return
+        ctx.prove(st0, 'binding:ProductSpaceElement.%s is built from the operator of the same name' % dunder, bind[dunder] == dunder, {'dunder': dunder, 'op': bind[dunder]})
+        factory = I.get_func(PSP + '_broadcast_arithmetic')
+        for ok in PS_OTHERS:
+            if ok in ('leaf-part',) and not power:
+                continue
+
+            def path(st, ok=ok):
+                w = pspace_world(I, st, k, power, field)
+                fr = ip.Frame(st)
+                f = I.call(factory, [bind[dunder]], {}, fr)
+                x, y = w.pelem('x'), w.pelem('y')
+                lf = w.asps[0].element('u')
+                al = w.alien.element('alien')
+                els = {'u': lf, 'alien': al}
+                for nm, e in (('x', x), ('y', y)):
+                    for i, p in enumerate(pparts(e)):
+                        els['%s%d' % (nm, i)] = p
+                old = {n: content(e) for n, e in els.items()}
+                objs = list(pparts(x))
+                s = None
+                if ok == 'self':
+                    o = x
+                elif ok == 'pelem':
+                    o = y
+                elif ok == 'leaf':
+                    o = lf
+                elif ok == 'alien':
+                    o = al
+                elif ok == 'scalar':
+                    o = s = om.sym_scalar('s', field)
+                    if dunder in ('__truediv__', '__itruediv__'):
+                        st.assume(core.s_not(core.sc_eq(s, 0)))
+                elif ok == 'badscalar':
+                    o = s = om.sym_scalar('s', 'complex')
+                else:
+                    o = 'text'
+                try:
+                    ret = I.call(f, [x, o], {}, fr)
+                except ip.PyRaise as e:
+                    return ('raise', (e.exc, els, old))
+                return ('ok', (w, x, objs, els, old, s, ret))
+            info = {'dunder': dunder, 'other': ok, 'components': k, 'power_space': power, 'field': field}
+            rp = dict(info, kind='pspace_dunder')
+            bcast = ok == 'leaf' and power
+            valid = ok in ('self', 'pelem', 'scalar') or bcast or (ok == 'badscalar' and field == 'complex')
+            for st, (status, r) in ctx.explore(path):
+                low = st.lower
+                if status == 'raise':
+                    exc, els, old = r
+                    if valid:
+                        ctx.fail(st, 'no_raise', 'raises %s' % lib.exc_desc(exc), info, replay=rp)
+                    else:
+                        ctx.prove(st, 'error:TypeError for unsupported operand (in-place form)', inplace and lib.exc_name(exc) == 'TypeError', info, replay=rp)
+                    for n in sorted(els):
+                        ctx.prove(st, 'error-frame:%s unchanged' % n, lib.eq_goal(low, content(els[n]), old[n]), info, replay=rp)
+                    continue
+                w, x, objs, els, old, s, ret = r
+                if not valid:
+                    ctx.prove(st, 'post:NotImplemented for unsupported operand', ret is ip.NOTIMPL and not inplace, dict(info, got=repr(ret)), replay=rp)
+                    for n in sorted(els):
+                        ctx.prove(st, 'frame:%s unchanged' % n, lib.eq_goal(low, content(els[n]), old[n]), info, replay=rp)
+                    continue
+                ok_obj = isinstance(ret, ip.Obj) and ret.fields.get('_LinearSpaceElement__space') is w.space and len(ret.fields.get('_ProductSpaceElement__parts', ())) == k
+                ctx.prove(st, 'post:returns an element of the product space with one part per factor', ok_obj, dict(info, got=repr(ret)), replay=rp)
+                if not ok_obj:
+                    continue
+                rparts = pparts(ret)
+                if inplace:
+                    ctx.prove(st, 'post:in-place form works on the very parts of self', all(p is q for p, q in zip(rparts, objs)) and all(p is q for p, q in zip(pparts(x), objs)), info, replay=rp)
+                else:
+                    ctx.prove(st, 'post:result parts are fresh elements', all(all(p is not e for e in els.values()) for p in rparts), info, replay=rp)
+                written = set()
+                for i in range(k):
+                    xi = old['x%d' % i]
+                    if ok in ('scalar', 'badscalar'):
+                        spec = sspec(xi, s)
+                    elif ok == 'self':
+                        spec = espec(xi, xi)
+                    elif ok == 'pelem':
+                        spec = espec(xi, old['y%d' % i])
+                    else:
+                        spec = espec(xi, old['u'])
+                    ctx.prove(st, 'post:part %d == entry-wise result' % i, lib.eq_goal(low, content(rparts[i]), spec), info, replay=rp)
+                    ctx.prove(st, 'post:part %d belongs to factor %d' % (i, i), rparts[i].fields.get('_LinearSpaceElement__space') is w.asps[i].space, info, replay=rp)
+                    written.add(id(rparts[i]))
+                for n in sorted(els):
+                    if id(els[n]) not in written:
+                        ctx.prove(st, 'frame:%s unchanged' % n, lib.eq_goal(low, content(els[n]), old[n]), info, replay=rp)
+    u = Unit('pspace/%s/k=%d/%s/%s' % (dunder, k, 'power' if power else 'mixed', field), run,
+             funcs=[PSP + '_broadcast_arithmetic', PSP + 'ProductSpace._lincomb', PSP + 'ProductSpace._multiply', PSP + 'ProductSpace._divide', PSP + 'ProductSpace.one',
+                    PSP + 'ProductSpace.element', PSP + 'ProductSpace.__getitem__', PSP + 'ProductSpace.__eq__', PSP + 'ProductSpaceElement.__getitem__',
+                    SPACE + 'LinearSpaceElement.' + dunder, SPACE + 'LinearSpace.lincomb', SPACE + 'LinearSpace.multiply', SPACE + 'LinearSpace.divide'],
+             config={'dunder': dunder, 'components': k, 'power_space': power, 'field': field})
+    u.weight = 4
+    return u
+
 # --------------------------------------------------------------------------
 
 def units(tier, seed):
@@ -583,6 +883,17 @@ def units(tier, seed):
             us.append(unit_elem_unary(m, field))
         for m in ('__ipow__', '__pow__'):
             us.append(unit_elem_pow(m, field))
+    for field in ('real', 'complex'):
+        for k, power in ((2, True), (2, False), (3, True)):
+            if field == 'complex' and k == 3:
+                continue
+            for meth in ('_lincomb', '_multiply', '_divide'):
+                us.append(unit_pspace_kernel(meth, k, power, field))
+            for meth in ('zero', 'one'):
+                us.append(unit_pspace_nullary(meth, k, power, field))
+    for d in sorted(BIN_TABLE):
+        for k, power, field in ((2, True, 'real'), (2, False, 'real'), (2, True, 'complex')):
+            us.append(unit_pspace_dunder(d, k, power, field))
     return us
 
 
